@@ -17,7 +17,9 @@ EndOfOriginalArchiveData with every file complete and identical; (b) over the or
 every length; production: +-24 around every structural boundary + 200 spread lengths) no file may shrink or disappear when \
 the prefix grows; (c) without compression the recovered bytes must equal exactly the file bytes whose records lie in the \
 usable part of the stream computed from the model layout (everything present; unauthenticated: ciphertext present excluding \
-tags; authenticated: at least everything in complete chunks). Non-trivial = (a) archive whose compressed stream crosses >= 1 \
+tags; authenticated: at least everything in complete chunks). (a) is also run on archives encoded by the independent implementation of FORMAT.md (free interleaving, empty content \
+blocks, brotli parameters the writer never uses) and on archives holding a content block of k x repair-buffer size (+-1; \
+8 MiB with the production constants). Non-trivial = (a) archive whose compressed stream crosses >= 1 \
 block boundary or with >= 2 chunks, (b) consecutive prefixes whose results differ; distinct = (archive hash, n, mode)";
 
 #[derive(Clone, Debug, Serialize, Deserialize)]
@@ -80,7 +82,11 @@ fn oracle(c: &Case, st: &mut Stats) -> Result<(), String> {
     let a = match prog::make_arch(&c.program) {
         Ok(a) => a,
         Err(e) if e.starts_with("HARNESS") => return Err(e),
-        Err(_) => return Ok(()),
+        Err(_) => {
+            // the writer refused a valid program: that is C01's verdict, nothing to judge here - but it is counted
+            st.label("skipped: writer failed on the program (judged by C01)");
+            return Ok(());
+        }
     };
     let enc = a.res.layers & 1 != 0;
     let comp = a.res.layers & 2 != 0;
@@ -171,6 +177,87 @@ fn oracle(c: &Case, st: &mut Stats) -> Result<(), String> {
     Ok(())
 }
 
+/// (a) on archives the library did not write: encoded per FORMAT.md by the independent implementation, with free
+/// interleaving, empty content blocks and brotli parameters the writer never uses
+fn foreign(c: &super::c06::BackCase, st: &mut Stats) -> Result<(), String> {
+    let (bytes, model, secrets, inner_len) = super::c06::build_back(c);
+    let key = x25519_dalek::StaticSecret::from(secrets[c.reader as usize % secrets.len()]);
+    let enc = c.layers & 1 != 0;
+    let empties = c.files.iter().flatten().filter(|&&l| l == 0).count();
+    st.label(format!("foreign:layers={}", prog::layers_name(c.layers & 3)));
+    st.label(format!("foreign:empty-blocks={}", empties.min(3)));
+    let modes: &[bool] = if enc { &[true, false] } else { &[true] };
+    for &auth in modes {
+        st.eval(1);
+        let mode = if auth { "authenticated" } else { "unauthenticated" };
+        let full = prog::repair(&bytes, &[key.clone()], auth).map_err(|e| format!("intact archive encoded per FORMAT.md ({}, {mode}): {}", prog::layers_name(c.layers & 3), e.describe()))?;
+        if !full.end_reached {
+            return Err(format!(
+                "intact archive encoded per FORMAT.md ({}, {} bytes, {} empty content blocks, {mode}): repair does not report the end of the original data: status {}",
+                prog::layers_name(c.layers & 3), bytes.len(), empties, &full.status[..full.status.len().min(160)]
+            ));
+        }
+        let got: BTreeMap<String, Vec<u8>> = full.files.iter().map(|(k, v)| (k.clone(), v.data.clone())).collect();
+        if got != model {
+            return Err(format!("intact archive encoded per FORMAT.md ({}, {mode}): end reported but files differ from the original", prog::layers_name(c.layers & 3)));
+        }
+    }
+    if inner_len > BLOCK || bytes.len() > 2 * CHUNK || empties > 0 {
+        st.nontrivial(util::hash64(format!("foreign|{c:?}").as_bytes()));
+    }
+    st.sample(|| json!({"family": "foreign-intact", "flavour": FLAVOUR, "layers": prog::layers_name(c.layers & 3), "archive_len": bytes.len(), "file_block_lengths": c.files}));
+    Ok(())
+}
+
+/// (a) with content blocks sized around the multiples of the repair buffer (8 MiB with the production constants),
+/// which the size budget of the generated programs never reaches
+#[derive(Clone, Debug, Serialize, Deserialize)]
+pub struct CacheCase {
+    pub k: u8,
+    pub delta: i8,
+    pub layers: u8,
+    pub seed: u16,
+}
+
+fn cache_case() -> impl Strategy<Value = CacheCase> {
+    (1u8..=2, prop_oneof![3 => Just(0i8), 1 => Just(-1i8), 1 => Just(1i8)], prop_oneof![2 => Just(0u8), 2 => Just(1u8), 1 => Just(3u8)], any::<u16>()).prop_map(|(k, delta, layers, seed)| CacheCase { k, delta, layers, seed })
+}
+
+fn cache_sized(c: &CacheCase, st: &mut Stats) -> Result<(), String> {
+    use crate::data::{self, DataClass};
+    let keys = prog::keys_for(c.seed as u64, 1, 0);
+    let size = (c.k as usize * CACHE).saturating_add_signed(c.delta as isize);
+    let big = data::gen(if c.layers & 2 != 0 { DataClass::Text } else { DataClass::Random }, c.seed as u64, size);
+    let mut model: BTreeMap<String, Vec<u8>> = BTreeMap::new();
+    model.insert("first".into(), b"first file".to_vec());
+    model.insert("big".into(), big.clone());
+    model.insert("last".into(), b"last file".to_vec());
+    let cfg = prog::writer_config_via((c.seed % 8) as u8, c.layers, 1, &keys.publics);
+    let mut w = mla::ArchiveWriter::from_config(Vec::new(), cfg).map_err(|e| format!("HARNESS: {e:?}"))?;
+    w.add_file("first", 10, &b"first file"[..]).map_err(|e| format!("HARNESS: {e:?}"))?;
+    w.add_file("big", size as u64, &big[..]).map_err(|e| format!("HARNESS: {e:?}"))?;
+    w.add_file("last", 9, &b"last file"[..]).map_err(|e| format!("HARNESS: {e:?}"))?;
+    w.finalize().map_err(|e| format!("HARNESS: {e:?}"))?;
+    let bytes = w.into_raw();
+    let modes: &[bool] = if c.layers & 1 != 0 { &[true, false] } else { &[true] };
+    for &auth in modes {
+        st.eval(1);
+        let mode = if auth { "authenticated" } else { "unauthenticated" };
+        let full = prog::repair(&bytes, &keys.recipients, auth).map_err(|e| format!("intact archive with a content block of {size} bytes ({}, {mode}): {}", prog::layers_name(c.layers), e.describe()))?;
+        let got: BTreeMap<String, Vec<u8>> = full.files.iter().map(|(k, v)| (k.clone(), v.data.clone())).collect();
+        if !full.end_reached || got != model {
+            return Err(format!(
+                "intact archive with a content block of {size} bytes ({}, {mode}): status {}, files recovered {:?}",
+                prog::layers_name(c.layers), &full.status[..full.status.len().min(160)], got.iter().map(|(k, v)| (k.clone(), v.len())).collect::<Vec<_>>()
+            ));
+        }
+    }
+    st.label(format!("cache-sized:k={} delta={}", c.k, c.delta));
+    st.nontrivial(util::hash64(format!("cache|{c:?}").as_bytes()));
+    st.sample(|| json!({"family": "cache-sized", "flavour": FLAVOUR, "content_block": size, "layers": prog::layers_name(c.layers)}));
+    Ok(())
+}
+
 fn intact_params() -> ProgParams {
     ProgParams { max_files: 6, max_pieces: 5, min_files: 1, align_weight: 6, flush_max: 3, ..ProgParams::default() }
 }
@@ -181,6 +268,8 @@ fn run(ctx: &Ctx) -> Report {
     if SCALED {
         explore(&mut rep, ctx, "intact", ctx.n(3_000, 100_000), || prog::program(intact_params()).prop_map(|program| Case { program, cuts: false, only: None }), oracle);
         explore(&mut rep, ctx, "prefixes", ctx.n(80, 4_000), || prog::program(ProgParams { max_files: 5, max_pieces: 4, min_files: 1, ..ProgParams::default() }).prop_map(|program| Case { program, cuts: true, only: None }), oracle);
+        explore(&mut rep, ctx, "foreign-intact", ctx.n(3_000, 100_000), super::c06::back_case, foreign);
+        explore(&mut rep, ctx, "cache-sized", ctx.n(60, 600), cache_case, cache_sized);
     } else {
         // compressed streams crossing block boundaries: piece ends / flushes on block edges
         explore(
@@ -195,11 +284,19 @@ fn run(ctx: &Ctx) -> Report {
                 program.cap = 600_000;
                 Case { program, cuts: true, only: None }
             }), oracle);
+        explore(&mut rep, ctx, "foreign-intact", ctx.n(150, 3_000), super::c06::back_case, foreign);
+        explore(&mut rep, ctx, "cache-sized", ctx.n(10, 60), cache_case, cache_sized);
     }
     rep
 }
 
 fn replay(_ctx: &Ctx, _stage: &str, case: &Value) -> Result<(), String> {
+    let bad = |e: serde_json::Error| format!("HARNESS: bad replay case: {e}");
+    match _stage {
+        "foreign-intact" => return foreign(&serde_json::from_value(case.clone()).map_err(bad)?, &mut Stats::default()),
+        "cache-sized" => return cache_sized(&serde_json::from_value(case.clone()).map_err(bad)?, &mut Stats::default()),
+        _ => {}
+    }
     let c: Case = serde_json::from_value(case.clone()).map_err(|e| format!("HARNESS: bad replay case: {e}"))?;
     oracle(&c, &mut Stats::default())
 }
